@@ -128,6 +128,38 @@ theorem pitchXcorrAvx2_eq (x y : Nat → α) (len maxPitch i : Nat) :
   · simp only [if_neg h]
     rw [innerProdSse_eq]; rfl
 
+/-- celt_pitch_xcorr_c (unrolled version) with any inner kernels that compute the sequential sums. -/
+theorem pitchXcorrCWith_eq (kern : (Nat → α) → (Nat → α) → Vec α → Nat → Vec α)
+    (ip : (Nat → α) → (Nat → α) → Nat → α)
+    (hkern : ∀ x y s len k, k < 4 → kern x y s len k = s k + sumRange (fun j => x j * y (j + k)) len)
+    (hip : ∀ x y n, ip x y n = sumRange (fun i => x i * y i) n)
+    (x y : Nat → α) (len maxPitch i : Nat) :
+    pitchXcorrCWith kern ip x y len maxPitch i = pitchXcorrSpec x y len i := by
+  unfold pitchXcorrCWith pitchXcorrSpec
+  by_cases h : i < 4 * (maxPitch / 4)
+  · simp only [if_pos h]
+    rw [hkern _ _ _ _ _ (Nat.mod_lt i (by decide))]
+    simp only [vzero, zero_add]
+    apply sumRange_congr; intro j _
+    have : i / 4 * 4 + (j + i % 4) = i + j := by have := Nat.div_add_mod i 4; omega
+    rw [this]
+  · simp only [if_neg h]
+    rw [hip]
+
+theorem pitchXcorrC_eq (x y : Nat → α) (len maxPitch i : Nat) :
+    pitchXcorrC x y len maxPitch i = pitchXcorrSpec x y len i := by
+  unfold pitchXcorrC
+  apply pitchXcorrCWith_eq
+  · intro x y s len k hk; rw [xcorrKernelSse_eq _ _ _ _ _ hk, xcorrKernelC_eq]
+  · intro x y n; rw [innerProdSse_eq]; rfl
+
+theorem pitchXcorrCPortable_eq (x y : Nat → α) (len maxPitch i : Nat) :
+    pitchXcorrCPortable x y len maxPitch i = pitchXcorrSpec x y len i := by
+  unfold pitchXcorrCPortable
+  apply pitchXcorrCWith_eq
+  · intro x y s len k _; rw [xcorrKernelC_eq]
+  · intro x y n; rfl
+
 /-! ### comb_filter_const_sse -/
 
 theorem combSse_eq (x : Nat → α) (T : Nat) (g10 g11 g12 : α) (i : Nat) :
